@@ -101,6 +101,24 @@ def declare_mixins(U, S, cache_cls, value_of, item_frame):
     lp = m.loop(1).with_class_invariant()
     lp.decreases("len(self.cache)")
     m.ensures("len(self.cache) == 0", "cleared(terminates)")
+    # update(pairs): the stdlib loop of stores; for every finite sequence of pairs it terminates, keeps the class invariant (capacity
+    # included) and the pair stored last is afterwards the stored value of its key; nothing but keys of the old content or of the pairs
+    # is present.  (Which of the earlier entries survive is the fold of the store contract - exhaustively enumerated by the bounded layer.)
+    m = MM.method("update", {"other": SeqS(TupS(ANY, ANY)), "kwds": MapS(ANY, ANY)})
+    m.requires("len(kwds) == 0", "no-keyword-arguments")
+    m.modifies("self.cache", NODE + ".data[*]", *frame)
+    m.loop(1), m.loop(2)
+    lp = m.loop(3).with_class_invariant()
+    lp.invariant("implies(_i3 >= 1, (other[_i3 - 1][0] in self.cache) and %s == other[_i3 - 1][1])" % value_of("self", "other[_i3 - 1][0]"),
+                 "the-pair-stored-last-is-present")
+    lp.invariant("forall(k, implies(k in self.cache, (k in old(self.cache)) or exists(j, 0, _i3, other[j][0] == k)))", "no-foreign-key")
+    lp4 = m.loop(4).with_class_invariant()
+    post = [("implies(len(other) >= 1, (other[len(other) - 1][0] in self.cache) and %s == other[len(other) - 1][1])"
+             % value_of("self", "other[len(other) - 1][0]"), "last-pair-stored(terminates)"),
+            ("forall(k, implies(k in self.cache, (k in old(self.cache)) or exists(j, 0, len(other), other[j][0] == k)))", "no-foreign-key")]
+    for e, l in post:
+        lp4.invariant(e, l)
+        m.ensures(e, l)
     m = MM.method("setdefault", {"key": ANY, "default": ANY}, ANY)
     m.modifies("self.cache", NODE + ".data[*]", *frame)
     m.ensures("result == ite(key in old(self.cache), %s, default)" % ("old(%s)" % value_of("self", "key")))
@@ -189,7 +207,7 @@ def unit():
     U.verify("Cache", "__init__")
     for f in ("get", "__contains__", "keys", "values", "items"):
         U.verify("Mapping", f, "LRUCache")
-    for f in ("pop", "popitem", "clear", "setdefault"):
+    for f in ("pop", "popitem", "clear", "setdefault", "update"):
         U.verify("MutableMapping", f, "LRUCache")
     U.verify("MappingView", "__init__", "ValuesView")
     U.verify("MappingView", "__len__", "ValuesView")
